@@ -19,7 +19,7 @@ ENTRY = dict(
                    "and for the repaired one); an in-place call writes only its circuit argument and, for decompose_qpd_instructions, that "
                    "circuit's own instruction objects; in the property-satisfying model every object reachable from a result is new, so "
                    "results share nothing with arguments or earlier results and arbitrary edits of a result leave all older objects as "
-                   "they were. The three sharing classes of the current tree (F6, F10, F11) are refuted on the model of the current "
+                   "they were. The sharing classes F6, F10, F11 of the current tree are refuted on the model of the current "
                    "behaviour. Closed under the global context. Partial: what Qiskit's containers do inside copy/compose/append is an "
                    "oracle (O-copy), observed and monitored, not proved; the model is compared with the real id()-level alias relation "
                    "on ~300 generated cases per quick run.",
@@ -33,20 +33,28 @@ ENTRY = dict(
             "only mutable Python objects are represented (circuits, instruction objects with a stable identity, bases, slot lists, "
             "non-singleton gate objects inside bases, PauliLists, result objects); Qubit/Clbit, registers, floats, singleton gates and "
             "instructions held natively by the Rust circuit data are treated as immutable / identity-free",
-            "observation (outside the generator unless C16_UNITARY=1): Qiskit's own copy of an instruction shares ndarray parameters, so a "
-            "UnitaryGate in an INPUT circuit - or inside an already cached definition of a KAK-path placeholder decomposed with "
-            "map_ids=None - has its matrix shared with the result of every copying entry point",
-            "observation (ignored by the alias walk): Instruction.__deepcopy__ copies a cached definition only `if self._definition:`; an "
-            "EMPTY cached definition circuit (a placeholder half whose selected map is the empty list) is falsy and therefore shared "
-            "between a gate and its copies by Qiskit itself",
-            "observation (opt-in C16_SEPARATE_QPD=1): separate_circuit on a circuit that contains QPD gates shares their basis with the "
-            "subcircuits by the same mechanism as F6 (circuit.copy()); this call site is not in the F6 entry of KNOWN_FINDINGS.json, so "
-            "the default separate_circuit stream has no pre-placed gates",
+            "known finding F19 (own call site, modelled: CSeparate with fix6 off): separate_circuit shares the basis of a pre-placed QPD "
+            "gate with the returned subcircuits, by the same circuit.copy() mechanism as F6",
+            "known finding F20 (NOT in the heap model, which has no ndarray parameters): Qiskit's instruction copy shares an ndarray "
+            "inside params, so a UnitaryGate of an input circuit - or inside an already cached definition of a KAK-path placeholder with "
+            "a selected map - has its matrix shared with the result of every copying entry point (observed: partition_circuit_qubits, "
+            "cut_gates, partition_problem, find_cuts, separate_circuit, decompose_qpd_instructions). The harness removes from the compared "
+            "observation exactly the alias roots that are an ndarray element of the params of an instruction reachable from the arguments "
+            "(and records them in the case); every other root is compared with the model",
+            "known finding F21 (NOT in the heap model, which has no definition caches): Instruction.__deepcopy__ copies a cached definition "
+            "only `if self._definition:`; an EMPTY cached definition circuit (placeholder half whose selected map is the empty list) is falsy "
+            "and is shared between a gate and its copies; non-empty cached definitions are deep-copied. Routed like F20 (roots that are the "
+            "cached definition of an instruction reachable from the arguments)",
+            "F6/F10/F11/F19/F20/F21 cases go to the current-behaviour checker only while the class is listed with status known in "
+            "KNOWN_FINDINGS.json (a case may carry several classes, all must be listed); with an entry unlisted the same cases are compared "
+            "with the property-satisfying model, mismatch, and are judged as violations",
+            "not generated: decompose_qpd_instructions(map_ids=None) on gates whose definition was already read (the cached definitions are "
+            "then used as they are; the model has no definition caches)",
             "c16_later_calls_partial proves that a later call finds the same argument object graph; that `run` depends only on that "
             "graph up to renaming of new addresses is not proved (checked on the implementation: third call + calls on new inputs)",
             "completeness of the computed reachable sets is certified per case (observe_ok, c16_reach_complete), not proved for all fuel",
             "the theorems c16_fresh* / c16_edits_leave_inputs are about the property-satisfying model (mode Repaired); on the unchanged "
-            "tree the cases of the known sharing classes F6/F10/F11 are compared with the model of the current behaviour instead "
+            "tree the cases of the known sharing classes F6/F10/F11/F19/F20/F21 are compared with the model of the current behaviour instead "
             "(only while the class is listed as known in KNOWN_FINDINGS.json)",
         ],
     )
